@@ -17,19 +17,23 @@ Proof. exact extra_default_accepted. Qed.
 Print Assumptions C05_complete_extra_default_accepted.
 
 (** every implemented rule is enforced, in the specification's reading: no diagnostics => the rule is respected.
-    The only premise is that type names and directive names are unique (the specification's own premise). *)
+    Premises: type names are unique (the specification's premise; nitrogql does not check it across kinds) and the
+    built-in directive definitions are not redefined by the schema (nitrogql tolerates that; its two lookups then
+    disagree for that name).  Uniqueness of the schema's own directive names is no premise any more (451006c): it is
+    one of the rules. *)
 Theorem C05_sound : forall doc,
-  check_doc doc = [] -> unique_names doc = true -> forall r, rule_ok r doc = true.
-Proof. exact sound_all. Qed.
+  check_doc doc = [] -> unique_type_names doc = true -> builtins_not_redefined doc = true ->
+  forall r, rule_ok r doc = true.
+Proof. exact sound_all_weak. Qed.
 Print Assumptions C05_sound.
 
-(** exactness: on well-formed documents (unique type and directive names, no application written with empty
-    parentheses) the checker is silent exactly when the document respects every rule *)
+(** exactness: on well-formed documents (unique type names, built-in directives not redefined, no application written
+    with empty parentheses) the checker is silent exactly when the document respects every rule *)
 Theorem C05_exact : forall doc, wf_doc doc = true ->
   (check_doc doc = [] <-> forall r, rule_ok r doc = true).
 Proof.
-  intros doc Hwf. unfold wf_doc in Hwf. rewrite !andb_true_iff in Hwf. destruct Hwf as [Hu Hne]. split.
-  - intros H. apply sound_all; assumption.
+  intros doc Hwf. unfold wf_doc in Hwf. rewrite !andb_true_iff in Hwf. destruct Hwf as [[Ht Hb] Hne]. split.
+  - intros H. apply sound_all_weak; assumption.
   - intros HR. apply complete_rules; assumption.
 Qed.
 Print Assumptions C05_exact.
@@ -40,13 +44,14 @@ Theorem C05_sound_local : forall doc,
   ok_reserved doc = true /\ ok_dup_field doc = true /\ ok_dup_arg doc = true /\ ok_dup_input_field doc = true /\
   ok_dup_enum_value doc = true /\ ok_dup_union_member doc = true /\ ok_input_in_output doc = true /\
   ok_output_in_input doc = true /\ ok_directive_unknown doc = true /\ ok_directive_misplaced doc = true /\
-  ok_directive_repeated doc = true /\ ok_directive_args doc = true.
+  ok_directive_repeated doc = true /\ ok_directive_args doc = true /\ ok_dup_directive doc = true.
 Proof.
   intros doc H. repeat split.
   - exact (sound_reserved doc H). - exact (sound_dup_field doc H). - exact (sound_dup_arg doc H).
   - exact (sound_dup_input_field doc H). - exact (sound_dup_enum_value doc H). - exact (sound_dup_union_member doc H).
   - exact (sound_input_in_output doc H). - exact (sound_output_in_input doc H). - exact (sound_directive_unknown doc H).
   - exact (sound_directive_misplaced doc H). - exact (sound_directive_repeated doc H). - exact (sound_directive_args doc H).
+  - exact (sound_dup_directive doc H).
 Qed.
 Print Assumptions C05_sound_local.
 
